@@ -39,7 +39,7 @@ func main() {
 		faults(r)
 		construction(r)
 		rawBodies(r)
-		r.Floor(int64(r.Pick(1000, 15000)), int64(r.Pick(300, 5000)))
+		r.Floor(int64(r.Pick(1000, 10000)), int64(r.Pick(300, 5000)))
 	})
 }
 
